@@ -2,6 +2,7 @@ import GqlProofs.ExecBasic
 import GqlProofs.ExecLog
 import GqlProofs.ExecExample
 import GqlProofs.ExecAccurate
+import GqlProofs.ExecResolved
 /-! # C20 — Resolvers are invoked once per selected field with accurate parameters
 
 Property theorems only, about the execution-algorithm model `GqlModel.Exec.execute` (`GqlModel/Exec.lean`), for EVERY
@@ -76,6 +77,49 @@ theorem request_context_accurate (s : Schema) (doc : Document) (opName : String)
         exact ⟨rfl, rfl, rfl, op, nm, varDefs, dirs, loc, hsel, hroot, hv⟩
   · cases h
 
+theorem eq_of_nodup_map_path {log : List LogEntry} (hn : (log.map (·.path)).Nodup) {e e' : LogEntry}
+    (he : e ∈ log) (he' : e' ∈ log) (hp : e'.path = e.path) : e' = e := by
+  induction log with
+  | nil => cases he
+  | cons a log ih =>
+    rw [List.map_cons, List.nodup_cons] at hn
+    rcases List.mem_cons.mp he with h1 | h1 <;> rcases List.mem_cons.mp he' with h2 | h2
+    · rw [h1, h2]
+    · exfalso; apply hn.1; rw [← h1, ← hp]; exact List.mem_map.mpr ⟨_, h2, rfl⟩
+    · exfalso; apply hn.1; rw [← h2, hp]; exact List.mem_map.mpr ⟨_, h1, rfl⟩
+    · exact ih hn.2 h1 h2
+
+/-- Exactly once, unless the enclosing object was nulled: for every legitimate position (`Position`: the root, or an
+object reached from a field of a position) whose place in the response's data holds an OBJECT (i.e. no failure nulled
+it or an ancestor), EVERY selected field of that position (every group of its merged selection whose field the runtime
+type defines, `__typename` excepted — it has no resolver) has exactly one log entry, at the position's path ++ the
+response key. (Conversely every log entry belongs to such a position: `log_entry_accurate`. Fields of objects that were
+nulled afterwards may or may not have been resolved — the failure stops the enclosing non-null chain.) -/
+theorem resolved_iff_reached (s : Schema) (doc : Document) (opName : String) (inputs : Coerce.Vars)
+    (w : World) (fuel : Nat) (data : List (String × JVal)) (errs : List (Path × Bool)) (log : List LogEntry)
+    (kf : List Path) (h : execute s doc opName inputs w fuel = .result (some data) errs log kf) :
+    ∃ c root sel, requestCtx s doc opName inputs w = some (c, root, sel) ∧
+      ∀ rt src path G, Position c root (rootGroups c root sel) rt src path G →
+        ∀ fs, ValAt (.obj data) path (.obj fs) →
+          ∀ k nodes node fd, Selected c rt G k nodes node fd →
+            ∃ e, e ∈ log ∧ e.path = path ++ [.key k] ∧ ∀ e', e' ∈ log → e'.path = path ++ [.key k] → e' = e := by
+  have hnd := each_position_resolved_at_most_once s doc opName inputs w fuel _ errs log kf h
+  obtain ⟨c, root, sel, r, st, hc, hr, -, hlog, -, hd⟩ := execute_result h
+  refine ⟨c, root, sel, hc, ?_⟩
+  rcases hd with ⟨fs0, rfl, hfs⟩ | ⟨-, hnone⟩
+  · cases hfs
+    intro rt src path G hpos fs hval k nodes node fd hsel
+    have hkeys : (data.map (·.1)).Nodup := by
+      rw [execGroups_ok_keys c fuel _ _ _ _ _ _ _ _ _ hr]
+      simp only [List.map_nil, List.nil_append]
+      exact List.Nodup.sublist (List.Sublist.map _ List.filter_sublist)
+        (collect_keys_nodup c root sel ([], []) List.nodup_nil)
+    have hdone := ((resP c fuel).groups _ _ _ _ _ _ _ _ _ hr).hered hkeys hpos (rel := path) (by simp) hval
+    obtain ⟨e, he, hp⟩ := hdone k nodes node fd hsel
+    have he' : e ∈ log := by rw [hlog, List.mem_reverse]; exact he
+    exact ⟨e, he', hp, fun e' h1 h2 => eq_of_nodup_map_path hnd he' h1 (h2.trans hp.symm)⟩
+  · cases hnone
+
 /-! ## Non-vacuity -/
 
 open Ex in
@@ -91,6 +135,13 @@ example : (match execute schema doc "Q" varsT world 50 with
     | _ => []) =
     [("a", "Query", "a", 1, none), ("b", "Query", "b", 1, none), ("o", "Query", "o", 2, none),
      ("o.y", "O", "y", 2, some 1), ("n", "Query", "n", 1, none), ("n.y", "O", "y", 1, some 1)] := by
+  decide +kernel
+
+open Ex in
+/-- `resolved_iff_reached` on the example (variables `s = false`): `w` is nulled (its non-null `x` failed), so the
+position `w` is not in the data; `o` and `n` are objects and all their selected fields were resolved -/
+example : (obsData (execute schema doc "Q" varsF world 50)).map (fun d =>
+      ((JVal.lookup d "w").map JVal.isNull, (JVal.lookup d "o").map JVal.isNull)) = some (some true, some false) := by
   decide +kernel
 
 end GqlModel.Exec
